@@ -54,7 +54,9 @@ def run_real(case):
     import struct
     from vlib import renv
     kind = case["kind"]
-    srv = renv.Server(kind=kind, workers=1, bind="tcp", graceful=2, timeout=30, threads=2 if kind == "gthread" else None, keepalive=1)
+    # a small worker_connections: a connection slot that a hostile client manages to leak shows within one run
+    srv = renv.Server(kind=kind, workers=1, bind="tcp", graceful=2, timeout=30, threads=2 if kind == "gthread" else None, keepalive=1,
+                      extra=["--worker-connections", "6"])
     vio = []
     n = 0
     try:
@@ -65,7 +67,8 @@ def run_real(case):
         step = case.get("stride", 97)
         k = case.get("offset", 0)
         for fi, (name, data) in enumerate(items):
-            for off in sorted(set([len(data), (k + fi * step) % (len(data) + 1)] + ([len(data) // 2] if case.get("deep") else []))):
+            for off in sorted(set([len(data), (k + fi * step) % (len(data) + 1)] + ([len(data) // 2] if case.get("deep") else []) +
+                                  ([0] if fi % 3 == 0 else []))):
                 payload = data[:off]
                 n += 1
                 try:
